@@ -199,7 +199,7 @@ func (x *searcher) childBuild(s *State, o buildOpts) *buildResult {
 				}
 				if e.Kind == "Step" {
 					res.Steps = append(res.Steps, e.Label)
-					for _, t := range []string{tGen, tMid, tTop, tLeaf, tOther, tColon, tOtherAll} {
+					for _, t := range []string{tGen, tMid, tTop, tLeaf, tOther, tColon, tOtherAll, tDocs} {
 						if bodyName(t) == e.Label {
 							res.Executed[t] = true
 						}
